@@ -5,7 +5,8 @@ driver: lean/Driver/C02.lean.
 Correspondence: toy primitives inside the REAL Packetizer (toy MAC = HMAC over a toy digest class, computed by the real
 code through Python's hmac module); toy streams over TWO key epochs (fresh cipher and MAC keys, strict-kex sequence reset;
 the sender's wire bytes in both epochs are compared with the model) are edited (every single-byte
-flip / deletion / insertion over the first two packets, packet swaps, drops, replays, truncations, random multi-edits)
+flip / deletion / insertion over the first two packets, packet swaps, drops, replays, truncations, random multi-edits, the length-field bytes of the first packets overwritten with
+0, 1, 4, 8, 12, 13, block size, small and huge values)
 and fed to the real receiver and to the model: delivered (cmd, payload, seqno) lines and the error kind that ends the
 run must agree.
 Oracle (model-independent): recorded REAL-cipher streams per suite; every single-byte flip / deletion / insertion
@@ -29,9 +30,31 @@ def edits_exhaustive(stream, bounds, rng, upto_packets=2):
         yield ("insert", pos), stream[:pos] + bytes([rng.randrange(256)]) + stream[pos:]
 
 
+def edits_length_field(stream, bounds, rng, block=16):
+    """the 4 bytes where a packet's length field sits (cleartext in EtM / GCM, the first ciphertext bytes otherwise)
+    overwritten with structural values: 0, 1, 4, 8, 12, 13, the block size, small / huge random ones, low byte only"""
+    for i in range(min(3, len(bounds) - 1)):
+        at = bounds[i]
+        cur = int.from_bytes(stream[at:at + 4], "big")
+        vals = [0, 1, 4, 8, 12, 13, block - 4, block - 3, block, block + 4, cur - block, cur + block, cur + 1,
+                rng.randrange(0, 64), rng.randrange(0, 1 << 16), rng.randrange(1 << 16, 1 << 32), 0xFFFFFFFF]
+        for v in vals:
+            v %= 1 << 32
+            if v != cur:
+                yield ("length-field", i, v), stream[:at] + v.to_bytes(4, "big") + stream[at + 4:]
+        for low in (0, 4, 8, 12):
+            if low != stream[at + 3]:
+                yield ("length-low-byte", i, low), stream[:at + 3] + bytes([low]) + stream[at + 4:]
+
+
 def edits_structural(stream, bounds, rng, n_random):
     pk = [stream[bounds[i]:bounds[i + 1]] for i in range(len(bounds) - 1)]
     n = len(pk)
+    for e in edits_length_field(stream, bounds, rng, 16):
+        yield e
+    for e in edits_length_field(stream, bounds, rng, 8):
+        if e[0][0] == "length-field" and e[0][2] in (4, 5, 8, 12):
+            yield e
     for i in range(n - 1):
         yield ("swap", i), b"".join(pk[:i] + [pk[i + 1], pk[i]] + pk[i + 2:])
     for i in range(n):
@@ -357,6 +380,12 @@ def run(ctx):
                "of HMAC-SHA1/SHA2/MD5 (incl. 96-bit truncation) and AES-GCM, not of paramiko; hypothesis of "
                "prefix_of_sent_partial",
                "CipherBij: cipher contexts are bijections on block-aligned data (enc(dec c) = c along paired states)")
+    try:
+        ctx.write_generated("C03", L.gen_lean())
+    except L.Untranslatable as e:
+        ctx.broken.append({"kind": "translator", "what": "paramiko/packet.py kernels", "detail": str(e)[:300]})
+    except Exception as e:
+        ctx.broken.append({"kind": "generator", "what": exc_site(e), "detail": repr(e)[:300]})
     ctx.build()
     rng = ctx.rng
 
